@@ -573,8 +573,11 @@ theorem all_ok_complete_copy (E : Enc σ) (fuel ib ob : Nat) (e : σ) (src : Sou
 `streamEnc o` wraps `BV.Stream.compressStream` (another worker's model of encode.rs, imported) as an
 `Enc`; `EncSane` and `EncProgress` are PROVED for it (`BV/Lemmas/AdaptersStream*.lean`: cursor balance
 of every call; a cross-call rank — "final block / flush still due", padding owed, pending bytes —
-that every accepted call with output room which consumed nothing lowers).  What is left assumed is
-about the payload encoder only: `OracleBounded o B` (its answers have at most `B` bits).  A call in
+that every accepted call with output room which consumed nothing lowers).  NOTHING is assumed about
+the payload encoder any more (the former hypothesis `OracleBounded o B` is gone): the rank is a
+function of the state alone (`rankPF` / `rankFl` over `stateCap s`, the bound the machine's own storage
+sizing puts on what the one encode still due can leave pending), and it does not grow in a call
+that consumes nothing (`slowLoop_stalled` / `fastLoop_stalled`, `MCap`).  A call in
 which the stream model panics, or that leaves the envelope `Good` (positions ≥ 2^64), makes the
 wrapped encoder answer `ok = false` from then on — the adapters then return `Err`; absence of panics
 inside the stream machine is C20/C01's subject, not claimed here. -/
@@ -582,43 +585,42 @@ inside the stream machine is C20/C01's subject, not claimed here. -/
 section Modelled
 open BV.Stream
 
-theorem write_returns_stream (o : Oracle) {B : Nat} (hB : OracleBounded o B) (w : Writer (Option St))
+theorem write_returns_stream (o : Oracle) (w : Writer (Option St))
     (hb : 0 < w.bufSize) (buf : List Nat) :
     ∃ N, ∀ fuel, N ≤ fuel → (Writer.write (streamEnc o) fuel w buf).2 ≠ .livelock :=
-  write_returns (streamEnc o) opsPF _ (streamEnc_progress_pf o hB) (Or.inl rfl) w hb buf
+  write_returns (streamEnc o) opsPF _ (streamEnc_progress_pf o) (Or.inl rfl) w hb buf
 
-theorem flush_returns_stream (o : Oracle) {B : Nat} (hB : OracleBounded o B) (w : Writer (Option St))
+theorem flush_returns_stream (o : Oracle) (w : Writer (Option St))
     (hb : 0 < w.bufSize) :
     ∃ N, ∀ fuel, N ≤ fuel → (Writer.flush (streamEnc o) fuel w).2 ≠ .livelock :=
-  flush_returns (streamEnc o) opsFl _ (streamEnc_progress_fl o hB) rfl w hb
+  flush_returns (streamEnc o) opsFl _ (streamEnc_progress_fl o) rfl w hb
 
-theorem into_inner_returns_stream (o : Oracle) {B : Nat} (hB : OracleBounded o B) (w : Writer (Option St))
+theorem into_inner_returns_stream (o : Oracle) (w : Writer (Option St))
     (hb : 0 < w.bufSize) :
     ∃ N, ∀ fuel, N ≤ fuel → (Writer.intoInner (streamEnc o) fuel w).2 ≠ .livelock :=
-  into_inner_returns (streamEnc o) opsPF _ (streamEnc_progress_pf o hB) (Or.inr rfl) w hb
+  into_inner_returns (streamEnc o) opsPF _ (streamEnc_progress_pf o) (Or.inr rfl) w hb
 
-theorem read_returns_stream (o : Oracle) {B : Nat} (hB : OracleBounded o B) (r : Reader (Option St))
+theorem read_returns_stream (o : Oracle) (r : Reader (Option St))
     (hwf : r.WF) (cap : Nat) :
     ∃ N, ∀ fuel, N ≤ fuel → (Reader.read (streamEnc o) fuel r cap).2 ≠ .livelock :=
-  read_returns (streamEnc o) opsPF _ (streamEnc_progress_pf o hB) ⟨Or.inl rfl, Or.inr rfl⟩ r hwf cap
+  read_returns (streamEnc o) opsPF _ (streamEnc_progress_pf o) ⟨Or.inl rfl, Or.inr rfl⟩ r hwf cap
 
-theorem copy_terminates_stream (o : Oracle) {B : Nat} (hB : OracleBounded o B) (ib ob : Nat) (e : Option St)
+theorem copy_terminates_stream (o : Oracle) (ib ob : Nat) (e : Option St)
     (src : Source) (sink : Sink) :
     ∃ N, ∀ fuel, N ≤ fuel → (Copy.run (streamEnc o) fuel ib ob e src sink).2 ≠ .livelock :=
-  copy_terminates (streamEnc o) opsPF _ (streamEnc_progress_pf o hB) ⟨Or.inl rfl, Or.inr rfl⟩ ib ob e src sink
+  copy_terminates (streamEnc o) opsPF _ (streamEnc_progress_pf o) ⟨Or.inl rfl, Or.inr rfl⟩ ib ob e src sink
 
 /-- and the adapters never index outside their buffers because of it -/
-theorem stream_encoder_is_sane (o : Oracle) {B : Nat} (hB : OracleBounded o B) : EncSane (streamEnc o) :=
-  streamEnc_sane o hB
+theorem stream_encoder_is_sane (o : Oracle) : EncSane (streamEnc o) :=
+  streamEnc_sane o
 
 /-- the wrapped encoder does not die by itself: after any call that left it alive it is inside the
 envelope again, and a freshly initialised encoder is inside it -/
-theorem stream_encoder_stays_alive (o : Oracle) {B : Nat} (hB : OracleBounded o B) (s : Option St) (op : Op)
+theorem stream_encoder_stays_alive (o : Oracle) (s : Option St) (op : Op)
     (inp : List Nat) (cap : Nat) (s' : St) (h : ((streamEnc o).step s op inp cap).1 = some s') : Good s' :=
-  streamEnc_alive o hB s op inp cap s' h
+  streamEnc_alive o s op inp cap s' h
 
 example : Good (ensureInitialized St.new) := good_fresh ⟨{}, rfl⟩
-example : OracleBounded (fun _ _ => ({} : Ans)) 0 := fun _ _ => Nat.le_refl _
 
 end Modelled
 
